@@ -9,19 +9,19 @@ From ChessV Require Import Bits Types Board Moves Rays MoveGen Rules.
 Import ListNotations.
 Open Scope N_scope.
 
-Arguments N.add : simpl never.
-Arguments N.sub : simpl never.
-Arguments N.mul : simpl never.
-Arguments N.eqb : simpl never.
-Arguments N.ltb : simpl never.
-Arguments N.leb : simpl never.
-Arguments N.shiftl : simpl never.
-Arguments N.shiftr : simpl never.
-Arguments N.land : simpl never.
-Arguments N.lor : simpl never.
-Arguments N.lxor : simpl never.
-Arguments N.ldiff : simpl never.
-Arguments N.testbit : simpl never.
+#[local] Arguments N.add : simpl never.
+#[local] Arguments N.sub : simpl never.
+#[local] Arguments N.mul : simpl never.
+#[local] Arguments N.eqb : simpl never.
+#[local] Arguments N.ltb : simpl never.
+#[local] Arguments N.leb : simpl never.
+#[local] Arguments N.shiftl : simpl never.
+#[local] Arguments N.shiftr : simpl never.
+#[local] Arguments N.land : simpl never.
+#[local] Arguments N.lor : simpl never.
+#[local] Arguments N.lxor : simpl never.
+#[local] Arguments N.ldiff : simpl never.
+#[local] Arguments N.testbit : simpl never.
 
 (* ------------------------------------------------------------------ *)
 (* sweeping machinery                                                  *)
